@@ -21,8 +21,10 @@ ASSUMPTIONS = [
     'exact real arithmetic: rounding, overflow, NaN and signed zeros are outside every theorem',
     'the (1 - 1e-14) / (1 + 1e-14) safety factors of proximal_convex_conj_l1*, proximal_l2 are modelled as 1 '
     '(absorbed by the 1e-9 tolerance of the correspondence)',
-    'Q-instance square root = floor approximation with relative error < 2^-64 (exact on rational squares); '
-    'the R-instance uses sqrt',
+    'Q/R link: PROVED (C07/Transfer.v) for every sqrt-free tree and factory -- Q2R commutes with fval / fprox; for the '
+    'leaves with a square root (L2 norm, 2-ball, pointwise 2-norms, Huber on vector fields, KL) and quadratic '
+    'perturbation the Q-instance uses a floor square root with relative error < 2^-64 (exact on rational squares), '
+    'the R-instance sqrt: assumed, covered by the 1e-9 tolerance',
     'NumPy ufuncs, sort, cumsum, broadcasting and ODL space arithmetic (lincomb, inner, ufuncs on product spaces) '
     'behave as modelled (validated by the correspondence, not proved)',
     'flat weighted-list model of spaces: <x,y> = sum w_i x_i y_i (checked per generated space against space.inner)']
